@@ -125,3 +125,29 @@ def frame_parse_then_build(raw):
             assert bytes(w) == bytes(raw)
     else:
         assert bytes(w) == bytes(raw)  # device management property frames round-trip exactly
+
+
+# ------------------------------------------------------------------ serializing one frame does not disturb the next
+
+from xknx.telegram.apci import DeviceDescriptorRead, GroupValueRead, MemoryRead  # noqa: E402
+
+
+@lemma("C13", params=dict(s1=Int(0, 15), s2=Int(0, 15), src=SRC, which=Choice(0, 1, 2)), family=[dict(second=c) for c in ("connected", "individual")])
+def two_frames_with_the_same_apdu_do_not_share_their_octets(second, s1, s2, src, which):
+    """CEMILData.to_knx writes the TPCI bits into the first APDU octet in place. Two frames built one after
+    the other with equal application data (real service encoders, no stubs) but different transport control
+    each parse back to their own TPCI: the encoder hands out fresh octets per call (no shared or cached
+    buffer that keeps the bits of an earlier frame)."""
+    dst = IndividualAddress(0x1203)
+    payload = [DeviceDescriptorRead(descriptor=0), MemoryRead(address=0x60, count=1), DeviceDescriptorRead(descriptor=3)][which]
+    first = CEMILData(flags=CEMIFlags(), src_addr=src, dst_addr=dst, tpci=TDataConnected(s1), payload=payload)
+    w1 = first.to_knx()
+    tp2 = TDataConnected(s2) if second == "connected" else TDataIndividual()
+    same_again = [DeviceDescriptorRead(descriptor=0), MemoryRead(address=0x60, count=1), DeviceDescriptorRead(descriptor=3)][which]
+    d2 = CEMILData(flags=CEMIFlags(), src_addr=src, dst_addr=dst, tpci=tp2, payload=same_again)
+    w2 = d2.to_knx()
+    back1 = CEMILData.from_knx(bytes(w1))
+    back2 = CEMILData.from_knx(bytes(w2))
+    assert back1.tpci == TDataConnected(s1)
+    assert back2.tpci == tp2
+    assert back2.payload == same_again and back1.payload == payload
